@@ -17,6 +17,10 @@ P = {
          'Theorems (Coll: asynchronous issue, blocking wait, per-group FIFO matching): if the issues of every rank are the projection of one global instance list and every wait follows its issue, then in every state (any interleaving) some unfinished rank is enabled, no state is stuck before all ranks finish, every state can be run to completion, all members of a group issue the same sequence with equal metadata, nobody issues on a foreign group; the boolean checker proj_ok_b is sound (it constructs the global order; roots are members); crossed waits with per-group matching only do deadlock (Example). Tie: random K-FAC configurations x histories (construction, hooks, steps under constant/callable intervals, accumulation, bucketed/unbucketed, symmetric, state_dict/memory_usage on subsets, load_state_dict into a fresh object) x 3 schedules: logs accepted by the extracted checker, identical across schedules, runs complete with no mismatch/foreign group/non-member root/deadlock. PARTIAL: that the K-FAC control logic always produces such projections (kfac_proj for all configurations) is not a theorem; it is established per observed run.',
          'Coq kernel; extraction + driver; simdist fidelity to NCCL/gloo semantics; wait-after-issue holds by API construction; real transport time-outs outside the model. Closed under the global context.',
          'DESIGN.md §4 C03'),
+ 'C04': (True, 'Coq proof over the reals (symmetry and PSD of the batch moment, running-average closed form by induction, PSD of every reachable factor, rank-mean and union-batch laws, unscaling) + bit-exact correspondence of state_dict() factors with the IEEE-double reading of the extracted factor-update chain',
+         'Theorems over R for all shapes, batch sizes and history lengths: the batch second moment sym(X^T X / rows) is symmetric PSD; the update is alpha*previous + (1-alpha)*M with identity as first previous, hence F_t = (prod alpha_i) I + sum_i (1-alpha_i)(prod_{j>i} alpha_j) M_i; every reachable factor is symmetric PSD for decay in (0,1]; averaging the per-rank updates equals updating with the rank mean; the moment of the union of W equally sized batches is the mean of the moments; dividing output gradients by a loss scale s divides G by s^2. Tie: every step of random runs (linear 2-d/N-d, conv geometries, accumulation, hook/no-hook, scaler, worlds 1-4, eval passes and non-update steps interleaved): factors from state_dict() on every rank vs the extracted chain fed the recorded layer inputs / output gradients: bit-for-bit on the dyadic-exact stream, tolerance 1e-5/1e-10 otherwise; plus symmetry, eigvalsh, dtype and eval-inertness oracles.',
+         'Coq kernel; real-number axioms of the standard library; extraction + driver (IEEE doubles); simdist; rounding not modelled outside the exact stream; inputs/output gradients recorded by harness hooks; patch layout by C15; eval/off-step inertness checked, not proved here.',
+         'DESIGN.md §4 C04'),
  'C06': (True, 'Coq proof of the rank grid (columns/rows partition, singleton intersections, gradient source) for all W = k*p and every assignment accepted by greedy_ok_b; PrimFloat model of the fraction rule with a vm_compute theorem for all W <= 4096; correspondence for every local rank',
          'Theorems for all p, k > 0 (W = k*p), all cost maps and every tie-break: columns and rows partition the world into equal duplicate-free parts, each row meets each column in exactly one rank, all inverse workers of a layer lie in one column, every rank has exactly one gradient source (in its row, in the layer column; itself when it is a gradient worker), broadcast flags; bounded theorem: for all W <= 4096 and k | W the IEEE-double computation on k/W yields k. Tie: one KAISAAssignment per local rank (all ranks for W <= 24/48), all public queries compared with the extracted kaisa_view of the implementation inverse assignment, which must be accepted by greedy_ok_b on the columns; equality of the inverse assignment and of the group-creation order across ranks; fraction handling of KAISAAssignment and KFACPreconditioner compared bit-exactly with the PrimFloat model evaluated inside Coq.',
          'Coq kernel incl. vm_compute; PrimFloat/PrimInt63 kernel primitives; extraction + driver; coqc evaluation of generated float cases; integer costs; fraction theorem bounded by W <= 4096 (named _partial).',
